@@ -225,6 +225,80 @@ class Selection(Contract):
         yield "length_mismatch_rejected", isinstance(out["mismatch"], str) and "not equal" in out["mismatch"]
 
 
+class HistoryRestore(Contract):
+    """Parameters.set_from_history: every parameter gets the history value recorded under *its own label*, whatever the
+    order of the history's columns (a history file written for another declaration order), non-negative parameters back
+    through exp; ParameterHistory.append records labels and optimiser-space values in one ordering."""
+
+    prop = "C11"
+    name = "HistoryRestore"
+    target = "glotaran.parameter.parameters:Parameters.set_from_history"
+    functions = (
+        "glotaran.parameter.parameter_history:ParameterHistory.append",
+        "glotaran.parameter.parameter_history:ParameterHistory.get_parameters",
+        "glotaran.parameter.parameters:Parameters.set_from_label_and_value_arrays",
+    )
+    modules = MODS + ("glotaran.parameter.parameter_history",)
+    strength = "S"
+    agreement_runs = 0
+
+    KINDS = ("free", "nonneg", "bounded", "fixed")
+
+    def cases(self, tier):
+        n = 3
+        for ki, kinds in enumerate(itertools.product(self.KINDS, repeat=n)):
+            if tier == "quick" and ki % 4:
+                continue
+            for perm in itertools.permutations(range(n)):
+                yield {"kinds": kinds, "history_order": perm}
+
+    def build(self, S, case):
+        from glotaran.parameter import Parameter, Parameters
+
+        def make(prefix, order):
+            pars = {}
+            for i in order:
+                k = case["kinds"][i]
+                v = S.real(f"{prefix}_{i}")
+                kw = {}
+                if k == "fixed":
+                    kw["vary"] = False
+                elif k == "nonneg":
+                    kw["non_negative"] = True
+                    S.require(L.gt(v, 0), "non-negative value positive")
+                    S.require(L.not_(L.eq(v, 1.0)), "not the guard value")
+                elif k == "bounded":
+                    kw["minimum"], kw["maximum"] = -1000.0, 1000.0
+                pars[f"g.{i+1}"] = Parameter(label=f"g.{i+1}", value=v, **kw)
+            return Parameters(pars)
+
+        n = len(case["kinds"])
+        return {"target": make("cur", range(n)), "recorded": make("rec", case["history_order"]), "n": n}
+
+    def call(self, S, case, inp):
+        from glotaran.parameter.parameter_history import ParameterHistory
+
+        h = ParameterHistory()
+        h.append(inp["recorded"])
+        labels = list(h.parameter_labels)
+        inp["target"].set_from_history(h, 0)
+        return {"labels": labels, "after": {p.label: p.value for p in inp["target"].all()}, "recorded": {p.label: p.value for p in inp["recorded"].all()}}
+
+    def observe(self, out):
+        return out if isinstance(out, Raised) else None
+
+    def ensures(self, S, case, inp, out):
+        if isinstance(out, Raised):
+            yield "no_exception", False
+            return
+        order = [f"g.{i+1}" for i in case["history_order"]]
+        yield "history_labels_are_iteration_then_the_recorded_declaration_order", out["labels"] == ["iteration"] + order
+        conds = []
+        for lab, v in out["after"].items():
+            conds.append(L.eq(v, out["recorded"][lab]))
+        yield "every_parameter_is_restored_from_the_column_of_its_own_label", L.and_(*conds)
+
+
 class OptimizerBounds(Contract):
     """Optimizer.optimize hands x0 / bounds / method / tolerances to least_squares in label order; with
     least_squares staying inside the bounds (T) every recorded iterate respects [minimum, maximum]."""
